@@ -238,7 +238,7 @@ PROPS = {
         "classify": c01_class,
         # non-trivial: Message::new accepted the message (every route and parser was exercised)
         "nontrivial": lambda cls: cls["new"] == "ok",
-        "rule": "cases = random headers over boundary classes x query/body lengths (quick <=4 KiB, thorough <=64 KiB) x body-Vec capacity relation x streaming chunkings x trailing bytes x server echo/own-query mode, all from one SplitMix64 seed; distinct = distinct case line; non-trivial = Message::new accepted it, so all 9 emission routes and 8 parser/reader entry points were compared",
+        "rule": "cases = random headers over boundary classes x query/body lengths (quick <=4 KiB, thorough <=64 KiB) x body-Vec capacity relation x streaming chunkings x trailing bytes x server echo/own-query mode, all from one SplitMix64 seed; distinct = distinct case line; non-trivial = Message::new accepted it, so all 9 emission routes and 8 parser/reader entry points were compared Also (all tiers): queries and bodies of 2^16-1, 2^16, 2^16+1 bytes; a MessageBuilder route (same query/body/id/notify/format codes through the builder) whose 48 header bytes the driver compares with the encoding of the model's build.",
         "timeout_s": {"quick": 600, "thorough": 3000},
     },
     "C02": {
@@ -246,7 +246,7 @@ PROPS = {
         "classify": c02_class,
         # non-trivial: at least a full header with the right magic (gets past the first two checks)
         "nontrivial": lambda cls: cls["decode"] != "err:hlen" and cls["decode"] != "err:spec",
-        "rule": "cases = exhaustive 14^3 product of boundary classes of the three length fields x 3 buffer lengths, wrapping sums, valid frames with every truncation point and structured mutations, random byte strings <=4 KiB; plus 10 hostile headers (wrapping sums, 2^62, 2^63, u64::MAX, bad magic, truncated) sent over real sockets to the blocking, async and WebSocket servers and, as replies from a fake server, to the three clients: the endpoint must survive, fail that connection and keep serving; distinct = distinct byte string; non-trivial = >=48 bytes with the REPE magic (reaches the length arithmetic)",
+        "rule": "cases = exhaustive 14^3 product of boundary classes of the three length fields x 3 buffer lengths, wrapping sums, valid frames with every truncation point and structured mutations, random byte strings <=4 KiB; plus 10 hostile headers (wrapping sums, 2^62, 2^63, u64::MAX, bad magic, truncated) sent over real sockets to the blocking, async and WebSocket servers and, as replies from a fake server, to the three clients: the endpoint must survive, fail that connection and keep serving; distinct = distinct byte string; non-trivial = >=48 bytes with the REPE magic (reaches the length arithmetic) The blocking and the async stream readers are reported and judged separately. Net cases also include, on the WebSocket server and client, one binary message carrying a well-formed frame followed by 1, 5 or 48 surplus bytes (must not be dispatched / must not yield a value).",
         "timeout_s": {"quick": 600, "thorough": 3000},
     },
     "C11": {
@@ -260,7 +260,7 @@ PROPS = {
         "harness": "c13", "driver": "c11", "driver_args": ["C13"], "shards": 16,
         "classify": stream_class,
         "nontrivial": lambda cls: "resume" in cls["features"],
-        "rule": "cases = every sequence of length 4 (quick) / 5 (thorough) over a 16-symbol alphabet of contiguous pushes (logical lengths 0..2, wire overhead 0..1), resumes at offsets 0..3 (current and wrong file; each followed by a replay query), advance, cancel, reconnect poll, ack, send, for ring capacities 0, 2 and 5, plus random long histories with capacities 0..4096; distinct = distinct history; non-trivial = a resume was decided (accepted or refused) in it",
+        "rule": "cases = every sequence of length 4 (quick) / 5 (thorough) over a 16-symbol alphabet of contiguous pushes (logical lengths 0..2, wire overhead 0..1), resumes at offsets 0..3 (current and wrong file; each followed by a replay query), advance, cancel, reconnect poll, ack, send, for ring capacities 0, 2 and 5, plus random long histories with capacities 0..4096; distinct = distinct history; non-trivial = a resume was decided (accepted or refused) in it Re-entrant broadcasts: R:<b> makes every notified sink remove peer b during the broadcast; raw broadcasts tagged Utf8/Json carry bytes that are not valid text; sinks of peers with id%3=2 report is_connected()=false; concurrent cases include directed get_by duels (a key that always addresses a present peer is moved and its old owner removed while readers look it up).",
         "timeout_s": {"quick": 600, "thorough": 3000},
     },
     "C18": {
@@ -274,28 +274,28 @@ PROPS = {
         "harness": "c19", "driver": "c19", "shards": 4, "harness_shards": 16,
         "classify": c19_class,
         "nontrivial": lambda cls: cls["scenario"] == "broadcast-tags" or cls.get("script_len", 0) >= 1,
-        "rule": "cases = every per-attempt behaviour script of length <= min(max+1,3) (quick; at most one silent attempt) / <= max+2 (thorough) over {refused, accepted-then-closed, closed-while-idle, silent, malformed reply, application error, success} for max_attempts 1..3, blocking and async fleet, each followed by len+2 calls during which the node turns healthy; the fleet.attempt probe switches the scripted node synchronously before every attempt; plus tag-subset broadcasts over up to 3 nodes x 3 tags; distinct = distinct scenario; non-trivial = non-empty script or a tag broadcast",
+        "rule": "cases = every per-attempt behaviour script of length <= min(max+1,3) (quick; at most one silent attempt) / <= max+2 (thorough) over {refused, accepted-then-closed, closed-while-idle, silent, malformed reply, application error, success} for max_attempts 1..3, blocking and async fleet, each followed by len+2 calls during which the node turns healthy; the fleet.attempt probe switches the scripted node synchronously before every attempt; plus tag-subset broadcasts over up to 3 nodes x 3 tags; distinct = distinct scenario; non-trivial = non-empty script or a tag broadcast Scripted application-error replies carry varying codes (4096, Timeout, ResourceExhausted, InternalError, MethodNotFound); broadcast tag lists sometimes name every tag twice.",
         "timeout_s": {"quick": 900, "thorough": 3400},
     },
     "C17": {
         "harness": "c17", "driver": "c17", "shards": 2, "harness_shards": 8,
         "classify": c17_class,
         "nontrivial": lambda cls: cls["limit"] != "-",
-        "rule": "cases = for each assumed peer frame limit in {1 KiB, 4 KiB, 64 KiB, 1 MiB, (16 MiB thorough), none} and each of the 7 outbound paths (inline response, off-reader response, handler-pushed notify, registry broadcast, proxy-forwarded response, client request, client notify): frame sizes limit-2..limit+2 plus random sizes up to twice the limit, each on a fresh live WebSocket server / proxy / client with a raw tungstenite peer recording message sizes, the on_error hook counted, and a follow-up exchange for liveness; distinct = distinct case; non-trivial = a limit is configured",
+        "rule": "cases = for each assumed peer frame limit in {1 KiB, 4 KiB, 64 KiB, 1 MiB, (16 MiB thorough), none} and each of the 7 outbound paths (inline response, off-reader response, handler-pushed notify, registry broadcast, proxy-forwarded response, client request, client notify): frame sizes limit-2..limit+2 plus random sizes up to twice the limit, each on a fresh live WebSocket server / proxy / client with a raw tungstenite peer recording message sizes, the on_error hook counted, and a follow-up exchange for liveness; distinct = distinct case; non-trivial = a limit is configured The endpoint's own inbound thresholds vary (defaults, none, 512 bytes); response paths also carry handler errors around the limit; inline responses are also queued behind a backlog of 40 small notifications (burst=1).",
         "timeout_s": {"quick": 900, "thorough": 3400},
     },
     "C07": {
         "harness": "c07", "driver": "c07", "shards": 16, "harness_shards": 4,
         "classify": c07_class,
         "nontrivial": lambda cls: cls["kind"] == "pair" or cls["answers"] not in ("", "N"),
-        "rule": "seg = a recording hand-written RepeStruct mounted under 9 roots, relative paths of every depth 0..40 (plain, all-empty, escaped, trailing '/') plus random paths weighted on 15..18 segments with ~0/~1, malformed escapes, UTF-8, string-prefix-only and no-leading-slash paths, middleware before/after; get = every registration sequence of length <=4 (quick) / <=5 (thorough) over 10 ops (2 exact routes, 3 registries, 4 structs, middleware) x 9 lookup paths, plus random histories; each lookup through handle and handle_view with recording middlewares/handlers, plus json_pointer::parse of each path; pair = 35 targets covering every built-in handler kind x body-format codes {0,1,2,3,4,0xffff} x well-formed/truncated/random bodies: handle, handle_with_ctx, handle_view under forwarding chains and, for a share, live TCP/async/WebSocket servers, compared after the echo rule; distinct = distinct case line; non-trivial = a lookup reached a handler, or a pair case",
+        "rule": "seg = a recording hand-written RepeStruct mounted under 9 roots, relative paths of every depth 0..40 (plain, all-empty, escaped, trailing '/') plus random paths weighted on 15..18 segments with ~0/~1, malformed escapes, UTF-8, string-prefix-only and no-leading-slash paths, middleware before/after; get = every registration sequence of length <=4 (quick) / <=5 (thorough) over 10 ops (2 exact routes, 3 registries, 4 structs, middleware) x 9 lookup paths, plus random histories; each lookup through handle and handle_view with recording middlewares/handlers, plus json_pointer::parse of each path; pair = 35 targets covering every built-in handler kind x body-format codes {0,1,2,3,4,0xffff} x well-formed/truncated/random bodies: handle, handle_with_ctx, handle_view under forwarding chains and, for a share, live TCP/async/WebSocket servers, compared after the echo rule; distinct = distinct case line; non-trivial = a lookup reached a handler, or a pair case Lookups include paths whose first segment below a mount repeats the mount's own name.",
         "timeout_s": {"quick": 600, "thorough": 3000},
     },
     "C10": {
         "harness": "c10", "driver": "c10", "shards": 8, "harness_shards": 8,
         "classify": c10_class,
         "nontrivial": lambda cls: cls["fault"] != "none",
-        "rule": "cases = small streams (stream length x chunk size incl. empty, single chunk, exact multiple) x both compressions x every puller (pull_to_file, pull_to_beve_file, pull_to_beve_zst_file, pull_to_file_trailer_verified, pull_to_file_async / _verified_async / _trailer_verified_async over AsyncClient and WebSocketClient): no fault, connection cut after the j-th next response for every j (frame-counting TCP proxy), producer io::Error after k bytes for k = 0, end and every chunk boundary +-1, rejecting verifier; trailer lengths around chunk size and stream length (both TrailerHold branches, longer than the stream); pull_value / pull_value_async under every cut and producer failure; child process aborted by the verif-hooks callback at the n-th hit of each of the 6 probe points; destination absent or pre-existing, stale .svspart present or not; distinct = distinct case line; non-trivial = a fault was injected",
+        "rule": "cases = small streams (stream length x chunk size incl. empty, single chunk, exact multiple) x both compressions x every puller (pull_to_file, pull_to_beve_file, pull_to_beve_zst_file, pull_to_file_trailer_verified, pull_to_file_async / _verified_async / _trailer_verified_async over AsyncClient and WebSocketClient): no fault, connection cut after the j-th next response for every j (frame-counting TCP proxy), producer io::Error after k bytes for k = 0, end and every chunk boundary +-1, rejecting verifier; trailer lengths around chunk size and stream length (both TrailerHold branches, longer than the stream); pull_value / pull_value_async under every cut and producer failure; child process aborted by the verif-hooks callback at the n-th hit of each of the 6 probe points; destination absent or pre-existing, stale .svspart present or not; distinct = distinct case line; non-trivial = a fault was injected Also fault=trunc on the decompressing file puller: a proxy halves the final chunk of a compressed stream but lets the end-of-stream flag through (judged by the extracted oracle alone: no file, no temp file, no success).",
         "timeout_s": {"quick": 600, "thorough": 3000},
     },
     "C12": {
@@ -309,33 +309,33 @@ PROPS = {
         "harness": "c14", "driver": "c14", "shards": 16, "harness_shards": 4,
         "classify": c14_class,
         "nontrivial": lambda cls: cls["wrote"] == "True" or cls["called"] == "True",
-        "rule": "cases = every sequence of length <=4 (quick) / <=5 (thorough) over write/read/register_function/register_value on 3 pointers x 3 values (18 symbols), directly and (one level shallower) through Router::with_registry; directed malformed pointers, array-index spellings and mount prefixes x paths; random sequences <=100 ops over pointers with ~0/~1 escapes, empty tokens, index aliases, deep nesting, a third through a mount with JSON/UTF-8/raw/unsupported bodies; after every operation the answer (value / error code / RegistryError variant), the whole root document and the call log are recorded, plus eval_json_pointer/parse_json_pointer on reads; 2-4 threads x 1-4 concurrent requests on a fixed function table with logical timestamps, checked by linearizability search (real-time order) against the extracted model and specification; distinct = distinct case; non-trivial = a write succeeded or a callable ran",
+        "rule": "cases = every sequence of length <=4 (quick) / <=5 (thorough) over write/read/register_function/register_value on 3 pointers x 3 values (18 symbols), directly and (one level shallower) through Router::with_registry; directed malformed pointers, array-index spellings and mount prefixes x paths; random sequences <=100 ops over pointers with ~0/~1 escapes, empty tokens, index aliases, deep nesting, a third through a mount with JSON/UTF-8/raw/unsupported bodies; after every operation the answer (value / error code / RegistryError variant), the whole root document and the call log are recorded, plus eval_json_pointer/parse_json_pointer on reads; 2-4 threads x 1-4 concurrent requests on a fixed function table with logical timestamps, checked by linearizability search (real-time order) against the extracted model and specification; distinct = distinct case; non-trivial = a write succeeded or a callable ran Cancel reason 0 is the empty string.",
         "timeout_s": {"quick": 900, "thorough": 3400},
     },
     "C09": {
         "harness": "c09", "driver": "c09", "shards": 8, "harness_shards": 8,
         "classify": c09_class,
         "nontrivial": lambda cls: cls["chunks"] != "1" or cls["failure"] != "none",
-        "rule": "real sync-TCP and WebSocket servers, one SVS producer per (kind, element type, chunk_bytes, session_depth, compression); byte producers (reader, writer): payload lengths 0..3n+1 for n in {1,2,3,7,8}, all boundary residues k*n-1, k*n, k*n+1 for n in {64, 4096} (+65536, 1 MiB thorough), depths 0..3 (quick) / 0..8 (thorough), both compressions; every split of tiny payloads into <=3 writes plus random segmentations incl. zero-length and over-long writes; failure injected at 0, 1, L and every chunk boundary +-1, each both as an io::Error returned by the body writer / reader and as a panic of that application code on the producer thread; random sleeps in producer and consumer; BEVE producers (serde value, typed arrays, complex array) around the same boundaries; pullers blocking / async / WebSocket; per case: raw peer open, next until last or error, one more next; second stream with cancel then next; pull_to_vec / pull_value / pull_typed_slice / pull_complex_slice re-encoded; for zstd the harness decompresses the pulled bodies itself; distinct = distinct case line; non-trivial = not a single-chunk clean stream",
+        "rule": "real sync-TCP and WebSocket servers, one SVS producer per (kind, element type, chunk_bytes, session_depth, compression); byte producers (reader, writer): payload lengths 0..3n+1 for n in {1,2,3,7,8}, all boundary residues k*n-1, k*n, k*n+1 for n in {64, 4096} (+65536, 1 MiB thorough), depths 0..3 (quick) / 0..8 (thorough), both compressions; every split of tiny payloads into <=3 writes plus random segmentations incl. zero-length and over-long writes; failure injected at 0, 1, L and every chunk boundary +-1, each both as an io::Error returned by the body writer / reader and as a panic of that application code on the producer thread; random sleeps in producer and consumer; BEVE producers (serde value, typed arrays, complex array) around the same boundaries; pullers blocking / async / WebSocket; per case: raw peer open, next until last or error, one more next; second stream with cancel then next; pull_to_vec / pull_value / pull_typed_slice / pull_complex_slice re-encoded; for zstd the harness decompresses the pulled bodies itself; distinct = distinct case line; non-trivial = not a single-chunk clean stream Producer failures alternate between io::ErrorKind::Other and UnexpectedEof. dup=1 cases: two connections pull one stream id with a gated producer; the two replies must be next_handler's two replies (one end marker, one error).",
         "timeout_s": {"quick": 900, "thorough": 3400},
     },
     "C04": {
         "harness": "c04", "driver": "c04", "shards": 2, "harness_shards": 8,
         "classify": c04_class,
         "nontrivial": lambda cls: cls["callers"] != "1" and (cls["reordered"] == "True" or cls["features"] != "none"),
-        "rule": "cases = for each client (blocking, async, WebSocket): every permutation of the reply order for n<=4 (quick) / n<=6 (thorough) concurrent callers on clones of one client, each once plain and once with injected unknown-id, duplicate and (WebSocket) notify frames (reusing in-flight and free ids); random orders with unanswered callers for n<=16 / n<=64; batch_json of 1..40 requests answered in a shuffled order; 200 / 2000 model-sampled interleavings of register/write/receive-match/deliver/timeout/cancel for 2-4 callers forced by parking threads/tasks at the verif-hooks probe points; plus, AsyncClient only, 150 / 1500 cases of forward_message with (a) an in-flight id, (b) a free id, (c) the id the counter reaches next, (d) a notify message, (e) the id of an in-flight forward, and 3 directed + 150 / 1500 generated id-reuse cases (a forward or counter call registering the id of a call that is finished or matched-but-undelivered, the first call then timing out or being cancelled; includes the replay of the defect repaired in 76754fa); the scripted server never answers a request whose id currently belongs to another call; observation = caller -> (reply tag | timeout | cancel | refused | none | io error), subscriber tags, sorted ids of the counter-issued requests; distinct = distinct case; non-trivial = >1 caller and (reordered replies or an injected/timeout/cancel/forward step)",
+        "rule": "cases = for each client (blocking, async, WebSocket): every permutation of the reply order for n<=4 (quick) / n<=6 (thorough) concurrent callers on clones of one client, each once plain and once with injected unknown-id, duplicate and (WebSocket) notify frames (reusing in-flight and free ids); random orders with unanswered callers for n<=16 / n<=64; batch_json of 1..40 requests answered in a shuffled order; 200 / 2000 model-sampled interleavings of register/write/receive-match/deliver/timeout/cancel for 2-4 callers forced by parking threads/tasks at the verif-hooks probe points; plus, AsyncClient only, 150 / 1500 cases of forward_message with (a) an in-flight id, (b) a free id, (c) the id the counter reaches next, (d) a notify message, (e) the id of an in-flight forward, and 3 directed + 150 / 1500 generated id-reuse cases (a forward or counter call registering the id of a call that is finished or matched-but-undelivered, the first call then timing out or being cancelled; includes the replay of the defect repaired in 76754fa); the scripted server never answers a request whose id currently belongs to another call; observation = caller -> (reply tag | timeout | cancel | refused | none | io error), subscriber tags, sorted ids of the counter-issued requests; distinct = distinct case; non-trivial = >1 caller and (reordered replies or an injected/timeout/cancel/forward step) Frames nobody is waiting for (unknown id, second answer, answer after timeout/cancel) carry error codes 0/7/9/4096; WebSocket cases also run without a notification subscriber (sub=0, model_C04_nosub); batches of 1..40 and 63..200 requests; harness-only burner steps Z/z (a call whose body fails to serialize) with ids compared by rank.",
         "timeout_s": {"quick": 900, "thorough": 3400},
     },
     "C03": {
         "harness": "c03", "driver": "c03", "shards": 4, "harness_shards": 8,
         "classify": c03_class, "nontrivial": lambda cls: cls["handler_ran"] == "True",
-        "rule": "cases = pipelines (quick <=16, thorough <=64 requests) of hand-built frames over the product version {1,0,2,255,100} x query-format code {1,0,2,0xffff,0x101} x UTF-8/non-UTF-8 queries x 15 routes (json, typed, json-ctx, typed-ctx each inline and _blocking, with_handler adapter, typed slice, typed slice ref, erased inline/off-reader, registry mount with two callables, struct mount) and 12 unregistered paths x body-format codes {0,1,2,3,unknown} x body encodings (JSON, BEVE, typed/aligned slices, generic empty array, truncated, garbage, empty, mismatched announcement) x notify byte {0,1,2,0x80,0xff} x middleware refusal, with and without a registered middleware, sent to blocking TCP, async TCP and WebSocket servers; plus WebSocket-only pipelines with panicking off-reader handlers and with the off-reader permit pool (limit 1) held by a gated handler; a hidden sync request ends each pipeline, then a 150 ms grace detects extra frames; distinct = distinct case line; non-trivial = at least one user function ran",
+        "rule": "cases = pipelines (quick <=16, thorough <=64 requests) of hand-built frames over the product version {1,0,2,255,100} x query-format code {1,0,2,0xffff,0x101} x UTF-8/non-UTF-8 queries x 15 routes (json, typed, json-ctx, typed-ctx each inline and _blocking, with_handler adapter, typed slice, typed slice ref, erased inline/off-reader, registry mount with two callables, struct mount) and 12 unregistered paths x body-format codes {0,1,2,3,unknown} x body encodings (JSON, BEVE, typed/aligned slices, generic empty array, truncated, garbage, empty, mismatched announcement) x notify byte {0,1,2,0x80,0xff} x middleware refusal, with and without a registered middleware, sent to blocking TCP, async TCP and WebSocket servers; plus WebSocket-only pipelines with panicking off-reader handlers and with the off-reader permit pool (limit 1) held by a gated handler; a hidden sync request ends each pipeline, then a 150 ms grace detects extra frames; distinct = distinct case line; non-trivial = at least one user function ran TCP pipelines are sent in one write together with the first 20 bytes of the sync request and collected in two phases: every owed response must arrive before the rest of the sync request is sent (a response that shows up only afterwards is reported as withheld). gap= cases trickle notifies into an async server with a 400 ms read timeout. Erased handlers also return error responses carrying their own query.",
         "timeout_s": {"quick": 900, "thorough": 3400},
     },
     "C15": {
         "harness": "c15", "driver": "c15", "shards": 4, "harness_shards": 4,
         "classify": c15_class, "nontrivial": lambda cls: cls["handshake"] == "ok",
-        "rule": "cases = {serve_listener, serve_listener_with_graceful_drain, SharedWebSocketServer::accept(+_with_handshake)+serve_connection(+_with_cancel/_with_handshake), hand-rolled 101 + adopt_upgraded} x exit cause {clean close, socket loss, text frame, oversized frame, non-REPE binary frame, inline handler panic, embedder/shutdown token cancel, drain-deadline / task abort} x phase {idle, inline handler blocked, off-reader handler parked polling is_cancelled, outbound queue blocked on a slow peer, inside a blocking connect hook} with random hook configurations (counting / notifying / sleeping / alias-attaching hooks before and after with_peer_registry, handshake-aware hooks, 1..4 disconnect hooks around the registry's), plus a panicking connect hook at each position class and failed handshakes (garbage, wrong path, HTTP without upgrade); 1..4 (quick) / 1..32 (thorough) concurrent connections; per connection: callbacks ordered by a global sequence counter with registry.get/get_by sampled inside, registry after, frames seen by a raw tungstenite peer up to the first response, cancellation seen by the parked handler; plus staggered cases for every serving path: 2..4 connections under one server / shutdown trigger, connection 0 ended alone (clean close / socket loss / inline handler panic / protocol violation) while the others are idle or have a parked off-reader handler; after its disconnect hooks and a 300 ms settle each survivor must show 0 disconnect callbacks, presence in the registry with all its aliases, no cancellation seen, an answered fresh request, an un-cancelled embedder ShutdownToken, and a newly opened connection must be served; then the survivors are ended and judged by the usual clauses; distinct = distinct case; non-trivial = handshake succeeded",
+        "rule": "cases = {serve_listener, serve_listener_with_graceful_drain, SharedWebSocketServer::accept(+_with_handshake)+serve_connection(+_with_cancel/_with_handshake), hand-rolled 101 + adopt_upgraded} x exit cause {clean close, socket loss, text frame, oversized frame, non-REPE binary frame, inline handler panic, embedder/shutdown token cancel, drain-deadline / task abort} x phase {idle, inline handler blocked, off-reader handler parked polling is_cancelled, outbound queue blocked on a slow peer, inside a blocking connect hook} with random hook configurations (counting / notifying / sleeping / alias-attaching hooks before and after with_peer_registry, handshake-aware hooks, 1..4 disconnect hooks around the registry's), plus a panicking connect hook at each position class and failed handshakes (garbage, wrong path, HTTP without upgrade); 1..4 (quick) / 1..32 (thorough) concurrent connections; per connection: callbacks ordered by a global sequence counter with registry.get/get_by sampled inside, registry after, frames seen by a raw tungstenite peer up to the first response, cancellation seen by the parked handler; plus staggered cases for every serving path: 2..4 connections under one server / shutdown trigger, connection 0 ended alone (clean close / socket loss / inline handler panic / protocol violation) while the others are idle or have a parked off-reader handler; after its disconnect hooks and a 300 ms settle each survivor must show 0 disconnect callbacks, presence in the registry with all its aliases, no cancellation seen, an answered fresh request, an un-cancelled embedder ShutdownToken, and a newly opened connection must be served; then the survivors are ended and judged by the usual clauses; distinct = distinct case; non-trivial = handshake succeeded two=1 cases: two servers built alike share the one peer registry, odd-numbered connections go to the second.",
         "timeout_s": {"quick": 900, "thorough": 3400},
     },
     "C16": {
@@ -349,19 +349,19 @@ PROPS = {
         "harness": "c08", "driver": "c08", "shards": 16,
         "classify": c08_class,
         "nontrivial": lambda cls: cls["len"] != "<=0" or cls["kind"] in ("enc", "cplx", "ref", "net"),
-        "rule": "cases = 12 element types (u8..u64, i8..i64, bf16, f16, f32, f64; elements = boundary bit patterns incl. quiet/signalling NaNs with payloads, infinities, subnormals, integer extremes, and random bits) x lengths 0..33, 62..66, 255,256,257,4095,4096,16383,16384 (+ random <=5000, 10^5 thorough) through body_typed_slice / body_beve / write_message_typed_slice / write_message and the four decoder x encoder pairs; complex pairs for f32,f64,i16; borrowing route via handle_view with the frame placed at misalignment 0..7 in an 8-aligned buffer x query length 0..16 x lengths over all SIZE widths x aligned/regular/serde bodies, slice pointer range observed; every ordered pair of distinct element types x bulk/generic/aligned bodies x bulk decoder and both bulk routes; 6 wrong body-format codes; live blocking and async TCP servers: 8 route x client pairings x several path lengths; distinct = distinct case line; non-trivial = non-empty slice, or the empty slice on an encode/cross-decode/route path",
+        "rule": "cases = 12 element types (u8..u64, i8..i64, bf16, f16, f32, f64; elements = boundary bit patterns incl. quiet/signalling NaNs with payloads, infinities, subnormals, integer extremes, and random bits) x lengths 0..33, 62..66, 255,256,257,4095,4096,16383,16384 (+ random <=5000, 10^5 thorough) through body_typed_slice / body_beve / write_message_typed_slice / write_message and the four decoder x encoder pairs; complex pairs for f32,f64,i16; borrowing route via handle_view with the frame placed at misalignment 0..7 in an 8-aligned buffer x query length 0..16 x lengths over all SIZE widths x aligned/regular/serde bodies, slice pointer range observed; every ordered pair of distinct element types x bulk/generic/aligned bodies x bulk decoder and both bulk routes; 6 wrong body-format codes; live blocking and async TCP servers: 8 route x client pairings x several path lengths; distinct = distinct case line; non-trivial = non-empty slice, or the empty slice on an encode/cross-decode/route path Bulk bodies are also built on builders that already hold a body; the streaming writers are also handed headers with a preset body format; wrong-format cases also use the generic encoding (05 00 for the empty vector).",
         "timeout_s": {"quick": 900, "thorough": 3400},
     },
     "C06": {
         "harness": "c06", "driver": "c06", "shards": 2, "harness_shards": 16, "classify": c06_class,
         "nontrivial": lambda cls: cls["fault"] != "none" or cls["timeout"] == "True" or cls["cancel"] == "True",
-        "rule": "for each client (blocking, async, WebSocket): faults injected by a raw scripted peer after k of n requests were read — clean close, RST (SO_LINGER 0), bad magic, length mismatch, query_length=2^64-21/body_length=100, body_length=2^62, header truncated at 20 and 47 bytes, body truncated at 5 offsets, truncated then RST; on WebSocket also close frame, text frame, reserved bits, masked server frame, unknown opcode — with n = 0..3 (quick) / 0..16 (thorough) calls in flight, with and without per-call timeouts, then two later calls; the same with the reader parked at fail.after_shutdown (subscriber state, a later call, a cancel, then the drain); all lives of 2 / 3 calls over {answered, expired, expiry forced before removal / after take / before lookup via probes, cancelled, cancel forced after take / before lookup, pending}, sequential and overlapped, with late responses, an unknown-id response and forward_message residue probes, then a fresh call that must still work; the stalled-writer scenario (8 MiB request to a peer with 4 KiB SO_RCVBUF that does not read) on all three clients; 150 / 1500 random valid scenarios; 5 s watchdog per wait; distinct = distinct case line; non-trivial = a fault, timeout or cancel occurred",
+        "rule": "for each client (blocking, async, WebSocket): faults injected by a raw scripted peer after k of n requests were read — clean close, RST (SO_LINGER 0), bad magic, length mismatch, query_length=2^64-21/body_length=100, body_length=2^62, header truncated at 20 and 47 bytes, body truncated at 5 offsets, truncated then RST; on WebSocket also close frame, text frame, reserved bits, masked server frame, unknown opcode — with n = 0..3 (quick) / 0..16 (thorough) calls in flight, with and without per-call timeouts, then two later calls; the same with the reader parked at fail.after_shutdown (subscriber state, a later call, a cancel, then the drain); all lives of 2 / 3 calls over {answered, expired, expiry forced before removal / after take / before lookup via probes, cancelled, cancel forced after take / before lookup, pending}, sequential and overlapped, with late responses, an unknown-id response and forward_message residue probes, then a fresh call that must still work; the stalled-writer scenario (8 MiB request to a peer with 4 KiB SO_RCVBUF that does not read) on all three clients; 150 / 1500 random valid scenarios; 5 s watchdog per wait; distinct = distinct case line; non-trivial = a fault, timeout or cancel occurred XZ: a 1 ns per-call timeout.",
         "timeout_s": {"quick": 900, "thorough": 3400},
     },
     "C05": {
         "harness": "c05", "driver": "c05", "shards": 1, "harness_shards": 8, "classify": c05_class,
         "nontrivial": lambda cls: cls["writers"] != "1" or cls["torn"] == "True",
-        "rule": "per repetition (1 quick, 10 thorough): for each of blocking Client, AsyncClient, WebSocketClient, Server, AsyncServer and WebSocketServer, cases with 32, 16, 1-3 or 2-12 concurrent writers (threads or tasks on clones, pipelined requests, off-reader or inline responses plus pushed notifies) with frame lengths straddling 8 KiB, 16 KiB, 64 KiB, 212992, 1 MiB and 4 MiB (16/32 MiB in thorough) by -1/0/+1; stall with a 200 ms write timeout: an 8-32 MiB frame to a peer whose SO_RCVBUF was set to 4096 before listen/connect and which does not read for 900 ms, on Client, Server and AsyncServer; the same stall without a timeout on every endpoint; cancellation: an AsyncClient / WebSocketClient call aborted or timed out 0-200 ms into writing 8-16 MiB to a stalled peer; every case ends with two probe calls, then the raw peer reads to end of stream and analyses it with an independent byte-exact parser (tag, sequence number, position-keyed body pattern, checksum per frame); small streams are also parsed by the extracted Coq parse_frames; distinct = distinct case; non-trivial = more than one writer or a torn frame",
+        "rule": "per repetition (1 quick, 10 thorough): for each of blocking Client, AsyncClient, WebSocketClient, Server, AsyncServer and WebSocketServer, cases with 32, 16, 1-3 or 2-12 concurrent writers (threads or tasks on clones, pipelined requests, off-reader or inline responses plus pushed notifies) with frame lengths straddling 8 KiB, 16 KiB, 64 KiB, 212992, 1 MiB and 4 MiB (16/32 MiB in thorough) by -1/0/+1; stall with a 200 ms write timeout: an 8-32 MiB frame to a peer whose SO_RCVBUF was set to 4096 before listen/connect and which does not read for 900 ms, on Client, Server and AsyncServer; the same stall without a timeout on every endpoint; cancellation: an AsyncClient / WebSocketClient call aborted or timed out 0-200 ms into writing 8-16 MiB to a stalled peer; every case ends with two probe calls, then the raw peer reads to end of stream and analyses it with an independent byte-exact parser (tag, sequence number, position-keyed body pattern, checksum per frame); small streams are also parsed by the extracted Coq parse_frames; distinct = distinct case; non-trivial = more than one writer or a torn frame Also: blocking client with hundreds of frames that each fit the 8 KiB write buffer against a stalled peer with a write timeout; servers whose interrupted response is the last of the pipeline; cancelq (writers already queued behind the abandoned frame); a WebSocket server backlog of 200 queued pushes behind a stalled peer.",
         "timeout_s": {"quick": 900, "thorough": 3400},
     },
 }
